@@ -117,7 +117,7 @@ static void run_until(int64_t t, int64_t (*extra_deadline)(void))
 			event_base_loop(B, EVLOOP_ONCE);
 			if (g_boundary) g_boundary();
 			if (now_us() != last) { last = now_us(); same = 0; }
-			else if (++same > 20000) { if (g_livelock && g_livelock()) same = 0; else die("loop spins without time advancing"); }
+			else if (++same > 2000) { if (g_livelock && g_livelock()) same = 0; else die("loop spins without time advancing"); }
 			if (++guard > 2000000) die("loop guard");
 		}
 	}
@@ -772,29 +772,32 @@ static void r_eventcb(struct bufferevent *bev, short what, void *arg)
 	    nRS, (long long)r_minshare, g_desc);
 	s->en[d] = 0; s->reported[d] = 1;
 }
+static int64_t r_eff_burst(struct rsub *s, int d);
 static int r_livelock(void)
 {
-	int i;
-	long moved = 0;
-	static long last_moved = -1;
-	for (i = 0; i < nRS; i++) moved += (long)(RS[i].moved[0] + RS[i].moved[1]);
-	static int moving_calls;
-	if (moved != last_moved && ++moving_calls < 10) { last_moved = moved; return 1; }   /* bytes are moving: merely a long burst */
-	if (moved != last_moved) {
-		/* 200000 iterations at one virtual instant and still moving bytes: nothing limits the transfer */
-		last_moved = moved; moving_calls = 0;
-		vh_viol("C22:window-exceeded:unbounded-at-one-instant", "bufferevents kept moving bytes for 200000 loop iterations without virtual time advancing (%ld bytes so far): no limit is being applied | %s", moved, g_desc);
-		for (i = 0; i < nRS; i++) if (RS[i].alive) { bufferevent_disable(RS[i].bev, EV_READ | EV_WRITE); RS[i].en[0] = RS[i].en[1] = 0; RS[i].reported[0] = RS[i].reported[1] = 1; }
-		return 1;
+	/* called after every 2000 loop iterations during which virtual time did not advance */
+	static int64_t inst = -1, base_moved, last_moved;
+	int64_t moved = 0, allow = 1 << 20;
+	int i, d;
+	for (i = 0; i < nRS; i++) {
+		moved += RS[i].moved[0] + RS[i].moved[1];
+		/* what the buckets can release at one instant: at most one burst each (the smaller of own and group) */
+		for (d = 0; d < 2; d++) if (RS[i].alive) { int64_t e = r_eff_burst(&RS[i], d); allow += e == INT64_MAX ? 0 : 2 * e; }
 	}
-	moving_calls = 0;
-	vh_viol(r_grp && r_minshare == 0 ? "C22:stalled:zero-share-busy-loop" : "C22:stalled:busy-loop",
-	    "the loop ran 20000 iterations at one virtual instant without moving a byte (ready bufferevents whose allowance is 0 are neither suspended nor served); group level r=%lld w=%lld min_share=%lld | %s",
-	    r_grp ? (long long)bufferevent_rate_limit_group_get_read_limit(r_grp) : -1LL, r_grp ? (long long)bufferevent_rate_limit_group_get_write_limit(r_grp) : -1LL, (long long)r_minshare, g_desc);
+	if (inst != now_us()) { inst = now_us(); base_moved = last_moved = moved; return 1; }
+	if (moved == last_moved) {
+		vh_viol(r_grp && r_minshare == 0 ? "C22:stalled:zero-share-busy-loop" : "C22:stalled:busy-loop",
+		    "the loop ran 2000 iterations at one virtual instant without moving a byte (ready bufferevents whose allowance is 0 are neither suspended nor served); group level r=%lld w=%lld min_share=%lld | %s",
+		    r_grp ? (long long)bufferevent_rate_limit_group_get_read_limit(r_grp) : -1LL, r_grp ? (long long)bufferevent_rate_limit_group_get_write_limit(r_grp) : -1LL, (long long)r_minshare, g_desc);
+	} else if (moved - base_moved > allow) {
+		vh_viol("C22:window-exceeded:unbounded-at-one-instant", "%lld bytes moved at one virtual instant, more than twice every applicable burst together (%lld): no limit is being applied | %s",
+		    (long long)(moved - base_moved), (long long)allow, g_desc);
+	} else { last_moved = moved; return 1; }
 	for (i = 0; i < nRS; i++) if (RS[i].alive) {
 		bufferevent_disable(RS[i].bev, EV_READ | EV_WRITE);
 		RS[i].en[0] = RS[i].en[1] = 0; RS[i].reported[0] = RS[i].reported[1] = 1;
 	}
+	inst = -1;
 	return 1;
 }
 static int64_t pick_rate(vh_rng *r)
